@@ -92,3 +92,76 @@ pub fn bgzf(data: &[u8], cuts: &[usize], empties: bool) -> Vec<u8> {
     out.extend(bgzf_block(&[]));
     out
 }
+
+// ---------- hand-written raw BCF (GT only) ----------
+// noodles-bcf 0.32's *writer* mis-pads GT vectors of mixed ploidy (the end-of-vector padding is emitted once per
+// allele instead of once per sample), so mixed-ploidy records are encoded here directly after the BCF2.2 specification.
+
+fn typed_int_small(out: &mut Vec<u8>, v: i8) { out.push(0x11); out.push(v as u8); }
+fn typed_string(out: &mut Vec<u8>, s: &[u8]) {
+    if s.is_empty() { out.push(0x07); return; }
+    if s.len() < 15 { out.push(((s.len() as u8) << 4) | 0x07); } else { out.push(0xF7); typed_int_small_or_16(out, s.len()); }
+    out.extend_from_slice(s);
+}
+fn typed_int_small_or_16(out: &mut Vec<u8>, v: usize) {
+    if v < 127 { out.push(0x11); out.push(v as u8); } else { out.push(0x12); out.extend_from_slice(&(v as i16).to_le_bytes()); }
+}
+
+/// GT string -> BCF allele bytes ((allele+1)<<1 | phased); "." allele = 0
+fn gt_bytes(gt: &str) -> Option<Vec<u8>> {
+    let mut out = Vec::new();
+    let mut phased = false;
+    let mut cur = String::new();
+    let mut push = |cur: &str, phased: bool, out: &mut Vec<u8>| -> Option<()> {
+        let v: i32 = if cur == "." { 0 } else { let a: i32 = cur.parse().ok()?; if a > 62 { return None; } (a + 1) << 1 };
+        out.push((v | if phased { 1 } else { 0 }) as u8); Some(())
+    };
+    for c in gt.chars() {
+        if c == '/' || c == '|' { push(&cur, phased, &mut out)?; cur.clear(); phased = c == '|'; } else { cur.push(c); }
+    }
+    push(&cur, phased, &mut out)?;
+    Some(out)
+}
+
+pub fn raw_bcf_simple(cs: &CallSet) -> Option<Vec<u8>> {
+    if cs.recs.iter().any(|r| r.corrupt.is_some()) { return None; }
+    let mut contigs: Vec<&str> = Vec::new();
+    for r in &cs.recs { if !contigs.contains(&r.contig.as_str()) { contigs.push(&r.contig); } }
+    if contigs.is_empty() { contigs.push("1"); }
+    let mut text = String::from("##fileformat=VCFv4.3\n##FILTER=<ID=PASS,Description=\"All filters passed\">\n");
+    for c in &contigs { text.push_str(&format!("##contig=<ID={c},length=100000000>\n")); }
+    text.push_str("##FORMAT=<ID=GT,Number=1,Type=String,Description=\"Genotype\">\n");
+    text.push_str("#CHROM\tPOS\tID\tREF\tALT\tQUAL\tFILTER\tINFO\tFORMAT");
+    for c in &cs.cols { text.push('\t'); text.push_str(c); }
+    text.push('\n');
+    let mut out = Vec::new();
+    out.extend_from_slice(b"BCF\x02\x02");
+    out.extend_from_slice(&((text.len() + 1) as u32).to_le_bytes());
+    out.extend_from_slice(text.as_bytes()); out.push(0);
+    for r in &cs.recs {
+        let ma = max_allele(&r.gts);
+        let alts = ["C", "G", "T", "CA", "CAA", "CAAA", "CT", "CTT", "CTTT", "CG", "CGG", "CGGG"];
+        let nalt = ma.max(1).min(alts.len());
+        let mut shared = Vec::new();
+        shared.extend_from_slice(&(contigs.iter().position(|c| *c == r.contig)? as i32).to_le_bytes());
+        shared.extend_from_slice(&((r.pos as i32) - 1).to_le_bytes());
+        shared.extend_from_slice(&1i32.to_le_bytes());
+        shared.extend_from_slice(&0x7F80_0001u32.to_le_bytes());
+        shared.extend_from_slice(&((((1 + nalt) as u32) << 16) | 0).to_le_bytes());
+        shared.extend_from_slice(&((1u32 << 24) | cs.cols.len() as u32).to_le_bytes());
+        typed_string(&mut shared, b"");                 // ID missing
+        typed_string(&mut shared, b"A");
+        for a in &alts[..nalt] { typed_string(&mut shared, a.as_bytes()); }
+        shared.push(0x00);                                // FILTER: empty vector
+        let mut indiv = Vec::new();
+        typed_int_small(&mut indiv, 1);                   // FORMAT key: GT has dictionary index 1 (PASS = 0)
+        let enc: Vec<Vec<u8>> = r.gts.iter().map(|g| gt_bytes(g)).collect::<Option<_>>()?;
+        let maxlen = enc.iter().map(|e| e.len()).max().unwrap_or(1);
+        if maxlen < 15 { indiv.push(((maxlen as u8) << 4) | 0x01); } else { return None; }
+        for e in &enc { indiv.extend_from_slice(e); for _ in e.len()..maxlen { indiv.push(0x81); } }
+        out.extend_from_slice(&(shared.len() as u32).to_le_bytes());
+        out.extend_from_slice(&(indiv.len() as u32).to_le_bytes());
+        out.extend(shared); out.extend(indiv);
+    }
+    Some(out)
+}
